@@ -23,6 +23,27 @@
 #include "/repo/src/opus.c"
 #undef opus_packet_parse_impl
 #undef opus_pcm_soft_clip
+#ifdef VERIF_CH
+/* The four scratch arrays of opus_decode_frame have data-dependent sizes (ALLOC_NONE or k*channels); CBMC's encoding of
+   variable-length arrays does not scale (out of memory at 20 GB).  In the shape groups they get a fixed capacity, the requested
+   size is recorded in ghost state, asserted to fit, and every stub that receives a pointer into one of them checks its extent
+   against the REQUESTED size (vla_ok), so an under-sized request still fails an obligation at the callee boundary. */
+#include "stack_alloc.h"
+#undef ALLOC
+#define VERIF_VLA_CAP (10 * (VERIF_FS / 400) * 2)
+#define VERIF_VLA_N 12
+static const void *g_vla_base[VERIF_VLA_N]; static long g_vla_req[VERIF_VLA_N]; static int g_vla_n;
+static void verif_vla_note(const void *b, long req)
+{ __CPROVER_assert(req >= 0 && req <= (long)(VERIF_VLA_CAP * sizeof(opus_res)), "scratch array request fits the fixed capacity of this harness");
+  if (req <= (long)sizeof(opus_res)) return;          /* ALLOC_NONE placeholders are never used */
+  __CPROVER_assert(g_vla_n < VERIF_VLA_N, "ghost table of scratch arrays is large enough");
+  if (g_vla_n < VERIF_VLA_N) { g_vla_base[g_vla_n] = b; g_vla_req[g_vla_n] = req; g_vla_n++; } }
+#define ALLOC(var, size, type) type var[VERIF_VLA_CAP]; verif_vla_note((const void *)var, (long)(size) * (long)sizeof(type))
+static int vla_ok(const void *p, long nbytes)
+{ int k; for (k = 0; k < VERIF_VLA_N; k++) if (k < g_vla_n && __CPROVER_same_object(p, g_vla_base[k]) && (long)__CPROVER_POINTER_OFFSET(p) + nbytes > g_vla_req[k]) return 0; return 1; }
+#else
+#define vla_ok(p, n) 1
+#endif
 #include "/repo/src/opus_decoder.c"
 VERIF_DEFINE_CELT_FATAL
 int opus_packet_parse_impl(const unsigned char *data, opus_int32 len, int self_delimited, unsigned char *out_toc, const unsigned char *frames[48], opus_int16 size[48],
@@ -46,6 +67,7 @@ opus_int silk_Decode(void *decState, silk_DecControlStruct *decControl, opus_int
    __CPROVER_assert(decControl->payloadSize_ms == 10 || decControl->payloadSize_ms == 20 || decControl->payloadSize_ms == 40 || decControl->payloadSize_ms == 60, "silk_Decode: payload size is 10/20/40/60 ms");
    __CPROVER_assert(lostFlag == 0 || lostFlag == 1 || lostFlag == 2, "silk_Decode: lost flag");
    __CPROVER_assert(__CPROVER_w_ok(samplesOut, (size_t)n * decControl->nChannelsAPI * sizeof(opus_res)), "silk_Decode: output buffer holds one SILK frame");
+   __CPROVER_assert(vla_ok(samplesOut, (long)n * decControl->nChannelsAPI * (long)sizeof(opus_res)), "silk_Decode: output stays inside the scratch array as requested");
    __CPROVER_assert(lostFlag == 1 || (psRangeDec->offs <= psRangeDec->storage && psRangeDec->rng > 0), "silk_Decode: range decoder state sane");
    g_silk_calls++;
    if (lostFlag != 1) { /* consumes some bits */ psRangeDec->nbits_total += nondet_uchar(); }
@@ -63,6 +85,7 @@ int celt_decode_with_ec_dred(CELTDecoder *st, const unsigned char *data, int len
    __CPROVER_assert(data == NULL || len <= 1 || __CPROVER_r_ok(data, len), "celt_decode: the bytes it is given lie inside the packet");
    if (!(frame_size == F2_5 || frame_size == 2 * F2_5 || frame_size == 4 * F2_5 || frame_size == 8 * F2_5)) { g_celt_bad++; return OPUS_BAD_ARG; }   /* not a CELT frame size */
    __CPROVER_assert(__CPROVER_w_ok(pcm, (size_t)frame_size * 2 * sizeof(opus_res)) || __CPROVER_w_ok(pcm, (size_t)frame_size * sizeof(opus_res)), "celt_decode: output buffer holds the frame");
+   __CPROVER_assert(vla_ok(pcm, (long)frame_size * (long)sizeof(opus_res)), "celt_decode: output stays inside the scratch array as requested (mono extent)");
 #ifdef VERIF_GAIN
    g_pre = pcm[verif_K];        /* the decoded sample (arbitrary: the buffer content is nondeterministic) before post-processing */
 #endif
@@ -99,12 +122,20 @@ void h_decode_frame(void)
    __CPROVER_assume(st->prev_redundancy == 0 || st->prev_redundancy == 1);
    __CPROVER_assume(st->bandwidth == 0 || (st->bandwidth >= OPUS_BANDWIDTH_NARROWBAND && st->bandwidth <= OPUS_BANDWIDTH_FULLBAND));
    /* what opus_decode_native establishes from the TOC: the mode can code this frame size and bandwidth */
-   __CPROVER_assume(st->mode != MODE_CELT_ONLY || st->frame_size <= 8 * F2_5);
-   __CPROVER_assume(st->mode != MODE_HYBRID || (st->frame_size == 4 * F2_5 || st->frame_size == 8 * F2_5));
-   __CPROVER_assume(st->mode != MODE_SILK_ONLY || st->frame_size >= 4 * F2_5);
+   __CPROVER_assume(null_data || len <= 1 || DEC_TOC_OK(st));       /* required by the contract the decode_native groups call it through */
    __CPROVER_assume(1 <= frame_size && frame_size <= VERIF_MAXF * F2_5 && st->frame_size <= VERIF_MAXF * F2_5);
+#ifdef VERIF_CH
+   /* concrete shape per group: channels, TOC duration and output buffer are constants, so every scratch buffer of the real
+      function has a constant size (symbolic-size arrays cost 25 M clauses and never finished); the buffer is an exact-size object */
+   __CPROVER_assume(st->channels == VERIF_CH && st->frame_size == VERIF_TOCF * F2_5 && frame_size == VERIF_BUF);
+   { static opus_res pcm_store[VERIF_BUF * VERIF_CH]; pcm = pcm_store; }
+#else
    pcm = malloc((size_t)frame_size * st->channels * sizeof(opus_res)); __CPROVER_assume(pcm != NULL);
+#endif
    __CPROVER_assume(0 <= len && len <= VERIF_MAXLEN);
+#ifdef VERIF_EXTRA_ASSUME
+   __CPROVER_assume(VERIF_EXTRA_ASSUME);        /* case split of a shape group */
+#endif
    if (!null_data) { data = malloc(len > 0 ? len : 1); __CPROVER_assume(data != NULL); for (i = 0; i < VERIF_MAXLEN; i++) if (i < len) data[i] = nondet_uchar(); }
    old = *st; g_celt_bad = 0;
    ret = opus_decode_frame(st, data, len, pcm, frame_size, fec);
@@ -112,9 +143,19 @@ void h_decode_frame(void)
                     "opus_decode_frame returns a documented error or 0 < n <= frame_size");
    __CPROVER_assert(DEC_OK(st) && st->Fs == old.Fs && st->channels == old.channels && st->frame_size == old.frame_size && st->last_packet_duration == old.last_packet_duration &&
                     st->mode == old.mode && st->stream_channels == old.stream_channels && st->decode_gain == old.decode_gain, "decoder invariant and configuration preserved");
-   if (data != NULL && len > 1 && ret > 0) { CANARY("real frame"); __CPROVER_assert(ret == old.frame_size, "a real frame decodes to exactly the duration its TOC announced"); }
+#if !defined(VERIF_CH) || ((VERIF_BUF >= VERIF_TOCF * (VERIF_FS / 400)) && (!defined(VERIF_SPLIT) || VERIF_SPLIT == 3))
+#define CANARY_REAL CANARY("real frame")
+#else
+#define CANARY_REAL          /* buffer smaller than the TOC duration: a real frame is refused, the canary would be unreachable by design */
+#endif
+#if !defined(VERIF_CH) || ((VERIF_BUF % (VERIF_FS / 400) == 0) && (!defined(VERIF_SPLIT) || VERIF_SPLIT != 3))
+#define CANARY_PLC CANARY("concealment")
+#else
+#define CANARY_PLC
+#endif
+   if (data != NULL && len > 1 && ret > 0) { CANARY_REAL; __CPROVER_assert(ret == old.frame_size, "a real frame decodes to exactly the duration its TOC announced"); }
    if ((data == NULL || len <= 1) && frame_size % F2_5 == 0) {
-      CANARY("concealment");
+      CANARY_PLC;
       __CPROVER_assert(ret > 0 || ret == OPUS_BUFFER_TOO_SMALL, "concealment of a multiple of 2.5 ms does not fail (given the callee contracts)");
       __CPROVER_assert(ret <= 0 || (ret % F2_5 == 0 && ret <= old.frame_size) || data == NULL, "concealment of a <=1-byte frame is a positive multiple of 2.5 ms, at most the TOC duration");
       __CPROVER_assert(!(data != NULL && len <= 1 && frame_size >= old.frame_size) || ret == old.frame_size, "a <=1-byte frame is concealed for exactly the TOC duration when the buffer allows it");
